@@ -110,6 +110,22 @@ func resolveLimit(c *Ctx, rule string) *limitRoles {
 		c.R.Fail(rule, "v2:limit#recv", "-", "UNRESOLVED-ANCHOR: no receive from Opts.Input in the limit goroutine")
 		return nil
 	}
+	// nothing else reads the input: an element taken from it outside the rate-keeping loop (by the
+	// constructor, by an API method) leaves without being counted in any batch
+	inRoutine := map[*ssa.Function]bool{}
+	for _, fn := range rt.Funcs {
+		inRoutine[fn] = true
+	}
+	for _, fn := range p.Funcs() {
+		if rel, _ := p.Rel(fn); rel != "limit" || inRoutine[fn] {
+			continue
+		}
+		for _, rs := range p.RecvSites(fn) {
+			if p.chanRole(rs.Chan) == "field:opts.Input" || strings.HasSuffix(p.chanRole(rs.Chan), "opts.Input") || strings.HasSuffix(p.chanRole(rs.Chan), ".Input") {
+				c.R.Fail(rule, p.FnKey(fn)+"#recv-outside", rs.Pos(p), "the input is also read outside the discipline's goroutine ("+shortFn(p, fn)+"): elements taken there are not counted in any batch and leave without the pause that keeps the rate (more than Quantity in one Interval)")
+			}
+		}
+	}
 	// the body of the batch loop may sit in a per-element helper (for range Quantity { if stop :=
 	// dsc.relay(input); stop { ... } }): the batch function is the one that holds the loop
 	lr.anchor = lr.src.In
